@@ -189,3 +189,36 @@ func TestRegressUploadInFlightAcrossResume(t *testing.T) {
 	}
 	stats.Count("pinned_in_flight_across_resume", n)
 }
+
+// An index of more than ten chunks is resumed: chunk keys list as chunk-1, chunk-10, chunk-11, ..., chunk-2
+// (lexicographic), so the number of the last chunk is not the number of the last listed chunk. A resumed
+// build that continues from a lower number overwrites chunks whose keys are then never indexed again.
+func TestRegressResumeManyChunks(t *testing.T) {
+	var files []purgex.File
+	for i := 0; i < 8; i++ {
+		files = append(files, file(fmt.Sprintf("f%d", i), 100+i, i%3))
+	}
+	// 8 roots + 8 distinct tails + 3 shared leaves = 19 keys, one chunk each
+	base := caseT{
+		Shape: oneRepo, Chunk: 1, Parallel: 1, ResumeChunk: 1,
+		Pre: []purgex.Op{up(0, files[:4]...), up(0, files[4:]...), up(0, file("gone", 7, 2, 2)), {Kind: purgex.OpDelBundle, Repo: 0, Pick: 2}},
+		Mid: []purgex.Op{up(0, file("m", 55, 1, 1), file("n", 56, 0))},
+	}
+	n := 0
+	for _, sel := range []int{22, 25, 28, 31, 36, 39} {
+		for _, same := range []bool{false, true} {
+			c := base
+			c.SameDir = same
+			c.Crash = &crashT{Sel: sel, Land: true}
+			var out outcomeT
+			pinnedOut(t, "", "resumed index build over more than ten chunks", c, &out)
+			if out.resumed {
+				n++
+			}
+		}
+	}
+	if n < 6 {
+		t.Fatalf("harness: only %d of the pinned cases resumed an index", n)
+	}
+	stats.Count("pinned_resume_many_chunks", n)
+}
